@@ -34,16 +34,18 @@ CLAIMS = {
               "Lean 4 proof (induction, unbounded table) + differential correspondence"),
     "C04": _c("Proved: the three day notations compute what they mean for every year (Mm.w.d against a scan of the month); the year guard; and "
               "PARTIAL: for accepted interleaving rules that are tie-free the answer is DST exactly inside a period [start(y), following end) "
-              "with the matching half of the rule, and changes only at start/end instants. The full statement is false of the code "
-              "(known finding F1, proved counterexample). " + _K +
+              "with the matching half of the rule, and changes only at start/end instants. The full statement is false of the code: "
+              "¬C04_full is itself a theorem (full_statement_is_false; known finding F1). " + _K +
               "rule-only zones, lookups at start/end/New Year -1/0/+1 over year sets incl. the year-guard ends.",
               "Lean 4 proof (partial: TieFree) + differential correspondence + known finding"),
-    "C05": _c("Proved (PARTIAL: zones without a DST rule — table, table+fixed rule, fixed rule, single type; any offsets, leap seconds): every "
-              "valid result shows the searched local time under the forward lookup, no such instant of the i64 range is missing, valid results "
-              "strictly increase (no duplicates). With DST rules: correspondence + Spec oracle (validSet) only; false for known findings F1/F2 "
-              "(proved counterexample_F2). " + _K + "find family incl. junction zones (last table transition = a rule instant).",
+    "C05": _c("Proved (PARTIAL) for zones without a DST rule (table, table+fixed rule, fixed rule, single type; any offsets, leap seconds) and "
+              "for zones WITH a DST rule meeting C04's hypotheses (every IANA rule does: proved over the regenerated list) for searched years "
+              "inside the year guard: every valid result shows the searched local time under the forward lookup, no such instant of the i64 "
+              "range is missing, valid results strictly increase; and as one set equality, valid results = Spec.validSet, the executable spec "
+              "the oracle runs (valid_results_are_the_spec_set). False without the hypotheses: known findings F1, F2, F5 (proved "
+              "counterexample_F2, counterexample_F5). " + _K + "find family incl. junction zones (last table transition = a rule instant).",
               "Lean 4 proof (partial) + spec-oracle differential + known findings"),
-    "C06": _c("Proved (same partial scope as C05): a reported gap is a real one with the transition instant on both clocks, every gap "
+    "C06": _c("Proved (same partial scope as C05, rule zones included): a reported gap is a real one with the transition instant on both clocks, every gap "
               "containing the local time is reported, exactly once, all results ascending; unique/earliest/latest characterised. " + _K +
               "find family; Spec oracle gapSet for rule zones.",
               "Lean 4 proof (partial) + spec-oracle differential + known finding"),
@@ -57,7 +59,8 @@ CLAIMS = {
     "C08": _c("Proved: decoding what an independent writer wrote (any reserved bytes, shared/overlapping designation table, any isstd/isut "
               "vectors, v1 from the 32-bit block, v2/v3 from the 64-bit block with an ARBITRARY well-sized 32-bit block in front, extensions iff "
               "version 3) gives exactly TimeZone::new of the encoded parts; big-endian round trip; nine named rejections for arbitrary bytes; "
-              "accepted files are well-formed. " + _K +
+              "and the converse (soundness): any byte string the decoder accepts IS a file the writer produces for the decoded zone under some "
+              "layout (accepted_v1_is_written, accepted_v2_is_written). " + _K +
               "all 894 vendored IANA files, writer-generated files, by-construction corruptions that must be rejected.",
               "Lean 4 proof (round trip + rejections) + differential correspondence"),
     "C09": _c("Proved: the executable reference reader accepts exactly the declarative grammar (which is unambiguous), and the code's parser = "
@@ -65,15 +68,19 @@ CLAIMS = {
               "framing. " + _K +
               "tzfooter family through v2/v3 footers: bounded-exhaustive over a 16-letter alphabet, token sequences, grammar-directed sentences, mutations.",
               "Lean 4 proof (grammar = reader = parser) + bounded-exhaustive differential correspondence"),
-    "C10": _c("Four-way differential on the vendored tzdata 2025b (894 files): Rust implementation, Lean model (whose lookup/decoding is proved "
+    "C10": _c("Proved: the model's forward lookup equals the executable spec the oracle runs (lookup_is_the_executable_spec) and the 32 distinct "
+              "DST rules of the vendored snapshot, regenerated into Lean each run and cross-checked against what the implementation decodes, satisfy "
+              "the hypotheses of C04/C05/C06 (iana_rules_satisfy_hypotheses). Decided by: four-way differential on the vendored tzdata 2025b (894 files): Rust implementation, Lean model (whose lookup/decoding is proved "
               "against the spec in C03/C04/C08/C09/C12), glibc (TZ=:/path; right/ with scale conversion) and CPython zoneinfo, at every transition "
               "and leap record -1/0/+1, rule instants, random instants; search results against glibc's forward function. Lean cannot state "
               "anything about glibc or CPython: they are black-box oracles.",
               "reference-implementation differential + proved model"),
-    "C11": _c(_K + "rulenew family: all 1151x1151 day-notation pairs with breakpoint values of d and the limits of the three range tests, judged by the "
-              "28-year form of the three weak-order clauses. Proved so far (not yet claimed as the deciding argument): the guards and error order, "
-              "the reduction of 'all years' to 28 consecutive years, the Julian x Julian case; the month-week-day tables are in progress.",
-              "exhaustive-pair differential correspondence + spec oracle (theorems partly done)"),
+    "C11": _c("Proved: the constructor accepts iff the guards hold and, for EVERY year, the three weak-order clauses of the property hold "
+              "(new_accepts_iff), each refusal names its clause (new_errors), and no accepted rule ever flips order (no_order_flip). 'Every year' reduces to 28 consecutive years by a proved year-kind "
+              "argument; Julian x Julian by arithmetic; the month-week-day cases by kernel-evaluated tables over all (month, week, weekday) "
+              "with the time-of-day handled symbolically at the breakpoints (`decide +kernel`, 21 table modules). " + _K +
+              "rulenew family: all 1151x1151 day-notation pairs with breakpoint values of d and the limits of the three range tests.",
+              "Lean 4 proof (year-kind reduction + kernel-decided tables) + exhaustive-pair differential correspondence"),
     "C12": _c("Proved for every well-formed leap table: the backward conversion is the spec's toUtc; the Galois connection T ≤ toCount u ⟺ toUtc T ≤ u "
               "(a transition takes effect exactly at the instant its count denotes; the search reports the instant the lookup switches); both "
               "monotone; round trip off deleted seconds; insertion shares / deletion skips; the pre-fix function violates it (F3, fixed). " + _K +
@@ -118,6 +125,7 @@ CLAIMS = {
 NOT_APPLICABLE = {}
 
 NOTES = ("Genuine defects: F3 (negative leap second in the forward conversion) and F4 (single-newline footer) were repaired in /repo with `fix:` "
-         "commits; F1 (reverse-order rule with a tie) and F2 (overlapping rule periods in the search) are listed in known_findings.json. "
+         "commits; F1 (reverse-order rule with a tie), F2 (overlapping rule periods in the search) and F5 (search in the outermost guarded year returns an "
+         "instant the lookup refuses; found by a proof obligation) are listed in known_findings.json. "
          "No source hooks are used. Seeded breaking changes written by independent sub-agents are under /verif/seeded; DESIGN.md §12 records which "
          "check catches which.")
